@@ -170,6 +170,7 @@ type httpCase struct {
 	CommentTrap bool              `json:"comment_trap"` // a comment run directly between two bare request lines
 	LongLine    int               `json:"long_line,omitempty"`
 	NilDefaults bool              `json:"nil_defaults,omitempty"` // the default header map is nil
+	Ending      bool              `json:"ending,omitempty"`       // blank / white-space lines after the last target
 }
 
 var pads = []string{"", "", "", " ", "  ", "\t", " \t", "\r", "\v", "\f "}
@@ -432,6 +433,13 @@ func genHTTPCase(r *kit.Rng, work string, id int) httpCase {
 	hc.Src = strings.Join(lines, "\n")
 	if r.Chance(0.8) {
 		hc.Src += "\n"
+	}
+	if r.Chance(0.3) {
+		if !strings.HasSuffix(hc.Src, "\n") {
+			hc.Src += "\n"
+		}
+		hc.Src += r.PickStr(streamEndings)
+		hc.Ending = true
 	}
 	return hc
 }
@@ -727,6 +735,7 @@ type jsonCase struct {
 	LongLine    int                 `json:"long_line,omitempty"`
 	SpareCap    map[string]int      `json:"spare_cap,omitempty"` // spare capacity of the default value slices
 	Mutated     bool                `json:"mutated,omitempty"`   // byte-mutated: outside the property's domain
+	Ending      bool                `json:"ending,omitempty"`    // blank / white-space lines after the last target
 }
 
 func genJSONTarget(r *kit.Rng, i int, broken bool) vegeta.Target {
@@ -916,9 +925,19 @@ func genJSONCase(r *kit.Rng) (jsonCase, []vegeta.Target, []string) {
 		if !strings.HasSuffix(jc.Src, "\n") {
 			jc.Targets = jc.Targets[:len(jc.Targets)-1]
 		}
+	} else if r.Chance(0.5) {
+		// the end of the stream: blank lines, CRLF blank lines, a last line of spaces or tabs (with
+		// and without a newline of its own) after the last target
+		jc.Src += r.PickStr(streamEndings)
+		jc.Ending = true
 	}
 	return jc, ts, lines
 }
+
+// what may follow the last target of a stream without adding a target
+var streamEndings = []string{"\n", "\n\n\n", "\r\n", "\r\n\r\n", "   ", "\t", " \t \n", "\n  \t", "\n \n\t\n", "\r\n \r\n"}
+
+func mutatedCase(hc *httpCase) bool { return !hc.Legal }
 
 func expectedJSON(jc *jsonCase, own tview) tview {
 	v := tview{Method: own.Method, URL: own.URL, Header: map[string][]string{}}
@@ -1432,6 +1451,9 @@ func runC14(c *run.Ctx, s *kit.Summary) {
 			if hc.CommentTrap {
 				s.Count("http:comment_between_bare_request_lines")
 			}
+			if hc.Ending && !mutatedCase(&hc) {
+				s.Count("http:blank_or_space_lines_after_last_target")
+			}
 			if hc.LongLine > 0 {
 				s.Count(fmt.Sprintf("http:line_length~%d", hc.LongLine))
 			}
@@ -1578,6 +1600,9 @@ func runC14(c *run.Ctx, s *kit.Summary) {
 				jc.Src = gen.Mutate(r, jc.Src)
 				jc.Legal = false
 				jc.Mutated = true
+			}
+			if jc.Ending && !jc.Mutated {
+				s.Count("json:blank_or_space_lines_after_last_target")
 			}
 			if jc.LongLine > 0 {
 				s.Count(fmt.Sprintf("json:line_length~%d", jc.LongLine))
